@@ -28,6 +28,7 @@ pub struct Window {
     size: u16,
     chunk_size: usize,
     file: File,
+    exhausted: bool,
 }
 
 impl Window {
@@ -38,12 +39,19 @@ impl Window {
             size,
             chunk_size,
             file,
+            exhausted: false,
         }
     }
 
     /// Fills the `Window` with chunks of data from the file.
-    /// Returns `true` if the `Window` is full.
+    /// Returns `true` if the `Window` is full. Once the end of the file has
+    /// been reached (a chunk shorter than the chunk size was read), no further
+    /// chunks are added and `false` is returned.
     pub fn fill(&mut self) -> Result<bool, Box<dyn Error>> {
+        if self.exhausted {
+            return Ok(false);
+        }
+
         for _ in self.len()..self.size {
             let mut chunk = vec![0; self.chunk_size];
             let size = self.file.read(&mut chunk)?;
@@ -51,6 +59,7 @@ impl Window {
             if size != self.chunk_size {
                 chunk.truncate(size);
                 self.elements.push_back(chunk);
+                self.exhausted = true;
                 return Ok(false);
             }
 
